@@ -27,6 +27,7 @@ class GenOpts(object):
         self.nonfixed_bytes = True    # bytes<>, <N>, <...>, <@n> (only bytes[N] when False)
         self.allow_unset = True
         self.allow_const_refs = True
+        self.const_exprs = False      # constants / enumerators given as expressions over earlier names
         self.min_decls = 1
         self.max_decls = 6
         self.max_members = 6
@@ -97,8 +98,40 @@ class _Builder(object):
         return n, expr
 
     # ---- declarations
+    def name_expr(self, lo=0, hi=(1 << 32) - 1):
+        """(value, text) of a small expression over an earlier constant / enumerator, or None."""
+        if not self.disc_consts:
+            return None
+        n1, v1 = self.draw(st.sampled_from(self.disc_consts))
+        form = self.draw(st.integers(0, 5))
+        k = self.draw(st.integers(1, 5))
+        if form == 0:
+            v, text = v1, n1
+        elif form == 1:
+            v, text = v1 + k, '%s + %d' % (n1, k)
+        elif form == 2:
+            v, text = v1 * k, '%s * %d' % (n1, k)
+        elif form == 3:
+            v, text = (v1 + k) * 2, '(%s + %d) * 2' % (n1, k)
+        elif form == 4:
+            n2, v2 = self.draw(st.sampled_from(self.disc_consts))
+            v, text = v1 + v2, '%s + %s' % (n1, n2)
+        else:
+            v, text = v1 - v1 + k, '%s - %s + %d' % (n1, n1, k)
+        if not lo <= v <= hi:
+            return None
+        return v, text
+
     def add_const(self):
         name = self.fresh('K')
+        if self.o.const_exprs and self.draw(st.integers(0, 2)) > 0:
+            ne = self.name_expr()
+            if ne:
+                self.decls.append(Const(name, ne[0], ne[1]))
+                if 1 <= ne[0] <= 6:
+                    self.small_consts.append((name, ne[0]))
+                self.disc_consts.append((name, ne[0]))
+                return
         v = self.draw(st.one_of(st.integers(1, 6), st.sampled_from(ENUM_VALUES)))
         style = self.draw(st.integers(0, 3))
         expr = str(v) if style else hex(v)
@@ -118,7 +151,14 @@ class _Builder(object):
         members = []
         for i, v in enumerate(vals):
             en = '%s_%s' % (name, 'abcd'[i])
+            if self.o.const_exprs and self.draw(st.integers(0, 2)) == 0:
+                # (only names defined by *earlier definitions*: enumerators of this enum are added afterwards)
+                ne = self.name_expr()
+                if ne and ne[0] not in vals and ne[0] not in [m[1] for m in members]:
+                    members.append([en, ne[0], ne[1]])
+                    continue
             members.append([en, v, hex(v) if self.draw(st.integers(0, 3)) == 0 else str(v)])
+        for en, v, _ in members:
             self.disc_consts.append((en, v))
             if 1 <= v <= 6:
                 self.small_consts.append((en, v))
